@@ -217,8 +217,31 @@ def _canon(v):
     return v
 
 
+TINY = 1e-9
+
+
+def _residue(v):
+    """a non-zero float so small that it may be the rounding residue of a re-associated sum of O(1) terms"""
+    return isinstance(v, float) and v != 0 and abs(v) <= TINY
+
+
+def _almost_integral(v):
+    """a float that is not an integer but within rounding distance of one"""
+    return isinstance(v, float) and not v.is_integer() and abs(v - round(v)) <= TINY * max(1.0, abs(v))
+
+
+def _discontinuity(cond, what):
+    # simplify() may re-associate and commute float arithmetic (real-number laws); results then differ by rounding
+    # only, unless a discontinuous operation amplifies the difference: such valuations are not judged
+    if cond:
+        raise Fragile('rounding residue at a discontinuity: ' + what)
+
+
 def _safe_pow(a, b):
     check_num(a), check_num(b)
+    _discontinuity(_residue(a), 'tiny base of a power')
+    _discontinuity(_residue(b) and abs(a) <= TINY, 'power near 0 ** 0')
+    _discontinuity(a < 0 and _almost_integral(b), 'negative base, almost integral exponent')
     if isinstance(a, int) and isinstance(b, int):
         if b < 0:
             if a == 0:
@@ -241,6 +264,7 @@ def _to_int(v, reading):
         return int(v)
     if is_num(v):
         check_num(v)
+        _discontinuity(_almost_integral(v), 'int() of an almost integral float')
         if isinstance(v, float) and not v.is_integer():
             return math.floor(v) if reading.int_floor else int(v)
         return int(v)
@@ -268,9 +292,11 @@ def _to_float(v):
     raise Undefined('float() of a non-primitive')
 
 
-def _math1(fn):
+def _math1(fn, guard=None):
     def g(x):
         check_num(x)
+        if guard is not None:
+            guard(x)
         try:
             return check_num(fn(x))
         except (ValueError, OverflowError) as e:
@@ -280,9 +306,13 @@ def _math1(fn):
 
 MATH1 = {
     'abs': lambda x: abs(check_num(x)),
-    'sqrt': _math1(math.sqrt), 'ceil': _math1(math.ceil), 'floor': _math1(math.floor),
+    'sqrt': _math1(math.sqrt, lambda x: _discontinuity(_residue(x), 'sqrt of a tiny number')),
+    'ceil': _math1(math.ceil, lambda x: _discontinuity(_almost_integral(x), 'ceil of an almost integral float')),
+    'floor': _math1(math.floor, lambda x: _discontinuity(_almost_integral(x), 'floor of an almost integral float')),
     'sin': _math1(math.sin), 'cos': _math1(math.cos), 'tan': _math1(math.tan),
-    'asin': _math1(math.asin), 'acos': _math1(math.acos), 'atan': _math1(math.atan),
+    'asin': _math1(math.asin, lambda x: _discontinuity(isinstance(x, float) and abs(x) != 1 and abs(abs(x) - 1) <= TINY, 'asin at the domain edge')),
+    'acos': _math1(math.acos, lambda x: _discontinuity(isinstance(x, float) and abs(x) != 1 and abs(abs(x) - 1) <= TINY, 'acos at the domain edge')),
+    'atan': _math1(math.atan),
     'deg': _math1(math.degrees), 'rad': _math1(math.radians),
 }
 
@@ -513,6 +543,7 @@ def _compile_binary(node, C, strict):
     if tok == '/':
         def f_div(env):
             a, b = check_num(fa(env)), check_num(fb(env))
+            _discontinuity(_residue(b), 'tiny divisor')
             if b == 0:
                 raise Undefined('division by zero')
             try:
@@ -540,6 +571,7 @@ def _compile_call(node, C, reading):
                 raise Undefined('bool() of a non-primitive')
             if is_num(v):
                 check_num(v)
+                _discontinuity(_residue(v), 'bool() of a tiny number')
             return bool(v)
         return f_bool
     if name == 'int' and n == 1:
@@ -598,6 +630,7 @@ def _compile_call(node, C, reading):
     if name == 'log' and n == 2:
         def f_log(env):
             x, b = check_num(fargs[0](env)), check_num(fargs[1](env))
+            _discontinuity(_residue(x) or (isinstance(b, float) and b != 1 and abs(b - 1) <= TINY), 'log at a pole')
             try:
                 return check_num(math.log10(x) if b == 10 else math.log(x, b))
             except (ValueError, ZeroDivisionError, OverflowError) as e:
